@@ -25,7 +25,10 @@ pub mod c14;
 pub mod c15;
 pub mod c16;
 pub mod c19;
+pub mod hist;
 #[cfg(feature = "events")]
 pub mod c17;
+#[cfg(feature = "big_world")]
+pub mod c17big;
 #[cfg(not(kani))]
 pub mod replay_table;
